@@ -12,6 +12,56 @@ import json
 import vp, render_check
 
 
+def map_iteration(C, tier):
+    """MC_MapIter: the laws of map iteration on recorded observations (the visiting order of a map is not specified)."""
+    import os, re, itertools
+    KEYS = [("a", "a"), ("b", "b"), ("é", "é"), ({"$i64": "7"}, "7"), ({"$i64": "-1"}, "-1"), (True, "true"), ({"$u64": "18446744073709551615"}, "18446744073709551615"), ("", "")]
+    BODY = "{{ k }}\x1f{{ v }}\x1f{{ loop.index }}\x1f{{ loop.index0 }}\x1f{{ loop.first }}\x1f{{ loop.last }}\x1f{{ loop.length }}\x1e"
+    jobs, meta = [], []
+    for n in range(0, len(KEYS) + 1):
+        for rot in range(0, max(1, n)):
+            ks = (KEYS[rot:] + KEYS[:rot])[:n]
+            m = {"$map": [[k, j + 1] for j, (k, _) in enumerate(ks)]}
+            for stop in [0] + ([1, 2] if n >= 2 else []):
+                brk = "{% if loop.index == " + str(stop) + " %}{% break %}{% endif %}" if stop else ""
+                for wrap in ("%s", "{%% for z in [1] %%}%s{%% endfor %%}", "{%% set c %%}%s{%% endset %%}{{ c }}"):
+                    src = wrap % ("{% for k, v in m %}" + BODY + brk + "{% else %}ELSE{% endfor %}")
+                    jobs.append({"cfg": {}, "ctx": {"m": m}, "steps": [{"op": "render_str", "src": src, "auto": False}]})
+                    meta.append(([p for _, p in ks], stop, src))
+    res = vp.traced(jobs, C, "c03-mapiter")
+    work = vp.workdir("c03")
+    op = os.path.join(work, "mapiter.ndjson")
+    recs = []
+    with open(op, "w") as f:
+        for (keys, stop, src), rr, job in zip(meta, res, jobs):
+            C.count()
+            C.nontrivial(["mapiter", keys, stop, src[:20]])
+            x = rr[0]
+            if not x.get("ok"):
+                C.violation({"kind": "mapiter-error", "keys": keys, "stop": stop}, "iterating a map with keys %s fails: %s" % (keys, (x.get("msg") or x.get("disp", "") or str(x))[:150]), {"job": job})
+                continue
+            out = x["out"]
+            seen = []
+            for it in out.replace("ELSE", "").split("\x1e")[:-1]:
+                p = it.split("\x1f")
+                try:
+                    seen.append({"k": p[0], "v": int(p[1]), "index": int(p[2]), "index0": int(p[3]), "first": p[4] == "true", "last": p[5] == "true", "length": int(p[6])})
+                except (ValueError, IndexError):
+                    seen.append({"k": "?" + it, "v": -1, "index": -1, "index0": -1, "first": False, "last": False, "length": -1})
+            o = {"n": len(keys), "keys": keys, "seen": seen, "else": out.endswith("ELSE"), "stop": stop, "src": src, "out": out}
+            f.write(json.dumps(o) + "\n")
+            recs.append((o, job))
+    r = vp.tlc("MC_MapIter", "MC_MapIter", env={"OBS": op}, workers=4, timeout=600, name="c03-mapiter", allow_fail=True)
+    C.add_tlc(r, "MC_MapIter over %d recorded map iterations" % len(recs))
+    if not r.ok:
+        if r.violated != "InvMapIteration":
+            raise vp.ToolError("MC_MapIter failed: " + r.error[:300])
+        m_ = re.search(r"i = (\d+)", r.out)
+        o, job = recs[int(m_.group(1)) - 1] if m_ else ({}, None)
+        C.violation({"kind": "mapiter", "keys": o.get("keys"), "stop": o.get("stop")}, "map iteration breaks its laws: keys %s, break at %s, %r renders %r" % (
+            o.get("keys"), o.get("stop"), o.get("src"), o.get("out")), {"job": job, "observation": o})
+
+
 def run(tier):
     C = vp.Check("C03", tier, "model_checking")
     C.cov["rule"] = ("every complete program of <= MaxTok tokens over the theme's alphabet x every environment of the theme; "
@@ -24,6 +74,7 @@ def run(tier):
     if tier == "thorough":
         for theme in ("flow", "scope", "capture"):
             n += render_check.run_theme(C, theme, 9, traced=True, simulate=3000, depth=14, workers=1, tag="render-sim-" + theme)
+    map_iteration(C, tier)
     C.cov["programs"] = n
     C.cov["exhaustive"] = True
     C.assumptions += ["iteration order of maps with more than one entry, `~` on none/containers and printing of containers are unspecified (no-panic only)",
